@@ -76,7 +76,8 @@ func AEA(this *SR) (forward, inverse Transformer, err error) {
 		}
 		con = rh1 * ns0 / this.A
 		if this.sphere {
-			lat = math.Asin((c - con*con) / (2 * ns0))
+			// (asinz: at the pole the argument exceeds 1 by rounding error)
+			lat = asinz((c - con*con) / (2 * ns0))
 		} else {
 			qs = (c - con*con) / ns0
 			lat, err = aeaPhi1z(e3, qs)
